@@ -9,11 +9,12 @@ datetimes, ORCID iDs is taken by the harness, the model starts at the text), `_w
 layout), `_preprocess_schema`, `Block.schema`, `_make_schema_loop`, `Block.write`, `_write_multi`,
 `_write_file_heading`, `save_cif`.  The high-level builder is in `Model/Cif/Builder.lean`.
 
-Two places of the code are known to be defective (see `Props/C14.lean`); the model carries a
-`Variant` so that it can follow the code *as it is now* and *after the proposed repair*:
-`quoteFix` — `_quotes_for_string_value` also quotes values with a leading `_ # $ [ ] ;`, with a tab,
-and reserved words; `headingFix` — `save_cif` escapes non-ASCII text of the file comment.
-The theorems are about `Variant.fixed`; the harness probes which variant `/repo` implements.
+Two places of the code were defective until commits 667eecd and 0de43de (see `Props/C14.lean`).
+The model keeps a `Variant` *only* so that the behaviour before those commits stays expressible for
+the regression counterexamples (`Variant.beforeFix`): `quoteFix` — `_quotes_for_string_value` also
+quotes values with a leading `_ # $ [ ] ;`, with a tab, and reserved words; `headingFix` —
+`save_cif` escapes non-ASCII text of the file comment.  The code as it stands is `Variant.current`;
+all theorems are about it and the harness compares the implementation with it, unconditionally.
 -/
 namespace ScnVerif.Cif
 
@@ -22,8 +23,8 @@ structure Variant where
   headingFix : Bool
   deriving Repr, DecidableEq
 
-def Variant.fixed : Variant := ⟨true, true⟩
-def Variant.asCoded : Variant := ⟨false, false⟩
+def Variant.current : Variant := ⟨true, true⟩
+def Variant.beforeFix : Variant := ⟨false, false⟩
 
 /-! ## `_encode_non_ascii`: `s.encode('ascii', 'backslashreplace').decode('ascii')` -/
 
